@@ -5,7 +5,7 @@
    - the IN-PLACE sweep of the implementation does not: a concrete 3x3 field over R on which one
      cooling step of [cool_step2] creates a radial gradient                          (inplace_breaks_uniformity) *)
 From Coq Require Import Reals ZArith List Bool Arith Lia Lra.
-From Snow Require Import Num NumR Sn2D.
+From Snow Require Import Num NumR Sn1D SnProofs Sn2D.
 Import ListNotations.
 
 Section Generic.
@@ -149,3 +149,18 @@ Proof.
          s_dz s_dr s_dt s_K s_Kw s_lam0 s_alpha0 nadd nsub nmul ndiv nofZ Rops].
     intros H. lra.
 Qed.
+
+(* ---- vacuum window, 2D (C20): outside the open window every column's evaporative flux is zero, so a VISF step IS the
+   shelf step, in the cooling and in the solidification stage ------------------------------------------------------- *)
+Lemma qe2_outside visf t ts td dHe fl :
+  visf = false \/ t <= ts * 3600 \/ (ts + td) * 3600 <= t -> qe2 Rops visf t ts td dHe fl = map (fun _ => 0) fl.
+Proof. intros H. unfold qe2. apply map_ext. intros f. now apply q_evap_outside. Qed.
+Lemma qe2_inside t ts td dHe fl : ts * 3600 < t < (ts + td) * 3600 ->
+  qe2 Rops true t ts td dHe fl = map (fun f => - f * dHe) fl.
+Proof. intros H. unfold qe2. apply map_ext. intros f. now apply q_evap_inside. Qed.
+
+Theorem visf2_step_equals_shelf_step_outside_window (P : p2d (A:=R)) Nz Nr rr ip g w Tsh t ts td dHe fl :
+  t <= ts * 3600 \/ (ts + td) * 3600 <= t ->
+  cool_step2_t Rops P Nz Nr rr true t ts td dHe g Tsh fl = cool_step2_t Rops P Nz Nr rr false t ts td dHe g Tsh fl
+  /\ solid_step2_t Rops P Nz Nr rr ip true t ts td dHe g w Tsh fl = solid_step2_t Rops P Nz Nr rr ip false t ts td dHe g w Tsh fl.
+Proof. intros H. unfold cool_step2_t, solid_step2_t. rewrite !qe2_outside by tauto. split; reflexivity. Qed.
